@@ -497,35 +497,56 @@ func c17Long(c *Ctx) {
 // palindromes, tandem repeats, homopolymer and N runs — with k chosen so that
 // a k-mer spans exactly the motif (odd k up to 129, arms longer than any prefix
 // a comparison might shortcut on). Random DNA contains none of these.
+//
+// genMotif returns a motif and the k at which a k-mer spans it: hairpins (an
+// arm, a loop of 1..9 bases, the arm's reverse complement), even-length reverse
+// palindromes — exact, or with one base changed somewhere —, tandem repeats of
+// a short unit (among them (AT)n with a point mutation), homopolymer arms.
+// Arms of 1 … 130 bases: a comparison that looks at a prefix of 8, 16, 32 or
+// 64 bases (a machine word, a packed register) and decides ties on the rest
+// meets its tie exactly here, and nowhere in random DNA.
+func genMotif(r *rand.Rand, i int, alpha string) (motif []byte, kk int) {
+	arm := pick(r, []int{1, 2, 7, 8, 9, 15, 16, 17, 20, 31, 32, 33, 40, 63, 64, 65, 100, 130})
+	armSeq := randSeq(r, []byte("ACGT"), arm)
+	if r.IntN(6) == 0 {
+		armSeq = bytes.Repeat([]byte{pick(r, []byte(alpha))}, arm)
+	}
+	switch i % 5 {
+	case 0, 1: // hairpin with a loop; k spans arm + loop + arm
+		loop := randSeq(r, []byte(alpha+"acgtn"), 1+r.IntN(3)*r.IntN(4))
+		motif = append(append(append([]byte{}, armSeq...), loop...), refRevComp(armSeq)...)
+		kk = 2*arm + len(loop)
+	case 2: // reverse palindrome, even k
+		motif = append(append([]byte{}, armSeq...), refRevComp(armSeq)...)
+		kk = 2 * arm
+	case 3: // reverse palindrome with one base changed
+		motif = append(append([]byte{}, armSeq...), refRevComp(armSeq)...)
+		motif[r.IntN(len(motif))] = pick(r, []byte("ACGT"))
+		kk = 2 * arm
+	default: // tandem repeat of a short unit (every other time "AT"), any k, possibly one base changed
+		unit := randSeq(r, []byte("ACGT"), 1+r.IntN(4))
+		if r.IntN(2) == 0 {
+			unit = []byte("AT")
+		}
+		motif = bytes.Repeat(unit, 3+(2*arm)/len(unit))
+		if r.IntN(2) == 0 {
+			motif[r.IntN(len(motif))] = pick(r, []byte("ACGT"))
+		}
+		kk = 1 + r.IntN(2*arm+1)
+	}
+	if r.IntN(3) == 0 && kk > 2 {
+		kk -= 2 * r.IntN(min(3, kk/2)) // a k-mer inside the motif, sharing its centre
+	}
+	return motif, kk
+}
+
 func c17Motifs(c *Ctx) {
 	n := c.N(300, 6000)
 	for i := 0; i < n; i++ {
 		c.Case(int64(i), func(k *K) {
 			r := k.Rand()
 			h := &hashOracle{memo: map[string]uint64{}}
-			arm := pick(r, []int{1, 2, 7, 15, 16, 31, 32, 33, 40, 63, 64})
-			armSeq := genDNA(r, arm)
-			if r.IntN(6) == 0 {
-				armSeq = bytes.Repeat([]byte{pick(r, []byte("ACGTN"))}, arm)
-			}
-			var motif []byte
-			kk := 0
-			switch i % 4 {
-			case 0, 1: // hairpin, odd k
-				mid := pick(r, []byte("ACGTNacgtn"))
-				motif = append(append(append([]byte{}, armSeq...), mid), refRevComp(armSeq)...)
-				kk = 2*arm + 1
-			case 2: // reverse palindrome, even k
-				motif = append(append([]byte{}, armSeq...), refRevComp(armSeq)...)
-				kk = 2 * arm
-			default: // tandem repeat of a short unit, any k
-				unit := genDNA(r, 1+r.IntN(4))
-				motif = bytes.Repeat(unit, 3+(2*arm)/len(unit))
-				kk = 1 + r.IntN(2*arm+1)
-			}
-			if r.IntN(3) == 0 && kk > 2 {
-				kk -= 2 * r.IntN(min(3, kk/2)) // a k-mer inside the motif, sharing its centre
-			}
+			motif, kk := genMotif(r, i, "ACGTN")
 			left, right := genDNA(r, r.IntN(60)), genDNA(r, r.IntN(60))
 			seq := append(append(append([]byte{}, left...), motif...), right...)
 			if r.IntN(2) == 0 {
